@@ -4,10 +4,10 @@ package main
 // listed verbatim in evidence under trusted_base.
 
 import (
-	"go/token"
-	"regexp/syntax"
 	"fmt"
+	"go/token"
 	"go/types"
+	"regexp/syntax"
 	"strings"
 
 	"golang.org/x/tools/go/ssa"
@@ -384,9 +384,9 @@ func (fr *Frame) invokeIntrinsic(ins ssa.Instruction, c *ssa.CallCommon, recv Va
 // stores to them do not disturb the heap families of the same type.
 
 type localRef struct {
-	key   string
-	leaf  int // index of the first leaf addressed
-	typ   types.Type
+	key  string
+	leaf int // index of the first leaf addressed
+	typ  types.Type
 }
 
 func leafStart(t types.Type, field int) int {
@@ -684,7 +684,6 @@ func findStdType(fn *ssa.Function, pkg string) types.Type {
 	return res
 }
 
-
 // sprintfBound: an upper bound of the length of fmt.Sprintf(format, operands...) when the format is a constant and
 // every operand is a string, an integer, a rune or a boolean packed in place (the usual error-message case).
 func (fr *Frame) sprintfBound(args []Val) (string, bool) {
@@ -752,7 +751,6 @@ func (fr *Frame) sprintfBound(args []Val) (string, bool) {
 	}
 	return "(+ " + strings.Join(terms, " ") + ")", true
 }
-
 
 // regexpMinLen: the length in bytes of the shortest string the pattern of a package-level *regexp.Regexp can match
 // (0 when the pattern cannot be determined)
@@ -825,7 +823,6 @@ func reMin(re *syntax.Regexp) int {
 	}
 	return 0 // star, quest, empty, anchors, anything unknown
 }
-
 
 func (fr *Frame) builderOp(name string, c *ssa.CallCommon, args []Val, rt types.Type) (Val, bool) {
 	q := fr.q
@@ -903,7 +900,6 @@ func (fr *Frame) builderOp(name string, c *ssa.CallCommon, args []Val, rt types.
 	}
 	return Val{}, false
 }
-
 
 // throughSliceElement: the address is (a field of) an element of a slice; such cells are never fields of the tracked
 // receiver object, whose type has no array fields (no safe Go expression slices a struct's scalar fields)
